@@ -315,11 +315,13 @@ package p9
 //@ interface File.GetXattr
 //@   requires[C08] bound(recv) ==> !fenced(refof(recv))
 //@   ghost set $lasterr:error = result1
+//@   ghost set $xerr:error = result1
 //@   requires[C05] @not-closed own(recv) != 3
 //@   maypanic
 //@ interface File.ListXattrs
 //@   requires[C08] bound(recv) ==> !fenced(refof(recv))
 //@   ghost set $lasterr:error = result1
+//@   ghost set $xerr:error = result1
 //@   requires[C05] @not-closed own(recv) != 3
 //@   maypanic
 //@ interface File.RemoveXattr
@@ -779,10 +781,31 @@ package p9
 // preserves the three tree invariants is still assumed (assumed_ensures): the
 // loop in removeWithName and the recursion in markChildDeleted /
 // notifyNameChange are not expressible (map iteration, unbounded subtrees).
-//@ func notifyNameChange
+// notifyNameChange: the backends of the references at one level are told their
+// new place before anything below that level (a backend derives its path from
+// the parent it is given, so parents must be up to date first); each reference
+// is told its own parent's File and its own name. The iteration helpers and
+// the recursion over the subtree are abstract.
+//@ func (*pathNode).forEachChildRef
 //@   abstract
 //@   modifies $n.File.Renamed, $ncalls
 //@   ensures[C15,C16] samelocks()
+//@   maypanic
+//@ func (*pathNode).forEachChildNode
+//@   abstract
+//@   modifies $n.File.Renamed, $ncalls, type:pathNode.deleted
+//@   ensures[C15,C16] samelocks()
+//@   maypanic
+//@ func notifyNameChange
+//@   modifies $n.File.Renamed, $ncalls, type:pathNode.deleted
+//@   at (*pathNode).forEachChildRef requires[C08] @this-level recv == pn
+//@   at (*pathNode).forEachChildNode requires[C08] @a-level-is-told-before-the-levels-below-it recv == pn && ncalls("(*pathNode).forEachChildRef") == 1
+//@   ensures[C15,C16] samelocks()
+//@   maypanic
+//@ func notifyNameChange$1
+//@   modifies $n.File.Renamed, $ncalls
+//@   at File.Renamed presume own(recv) != 3 && (bound(recv) ==> globalLocked(refof(recv)))
+//@   at File.Renamed requires[C03,C08] @told-its-own-parent-and-name recv == ref.file && arg0 == ref.parent.file && arg1 == name
 //@   maypanic
 
 //@ func (*fidRef).renameChildTo
@@ -939,6 +962,8 @@ package p9
 //@   ensures[C08] @fenced-refused old(has(cs.fids, t.fid)) && old(fenced(cs.fids[t.fid])) ==> isErr(result, linux.EINVAL) && nocalls()
 //@   at File.GetXattr requires[C03] @forwards recv == old(cs.fids[t.fid]).file && arg0 == old(t.Name)
 //@   at File.ListXattrs requires[C03] @forwards recv == old(cs.fids[t.fid]).file
+//@   ensures[C04,C15] @failed-xattr-lookup-is-reported-and-binds-nothing (ncalls("File.GetXattr") > old(ncalls("File.GetXattr")) || ncalls("File.ListXattrs") > old(ncalls("File.ListXattrs"))) && ghost("$xerr", error) != nil ==> isErr(result, errno(ghost("$xerr", error))) && sameFids(cs)
+//@   at File.Walk requires[C03,C05] @clone-only-after-a-successful-lookup ghost("$xerr", error) == nil
 //@   at File.Walk requires[C03,C05] @new-fid-gets-a-clone-of-the-file recv == old(cs.fids[t.fid]).file && len(arg0) == 0
 //@   ensures[C15] @backend-error-reported ncalls() > old(ncalls()) && ghost("$lasterr", error) != nil ==> isErr(result, errno(ghost("$lasterr", error)))
 
@@ -1201,6 +1226,7 @@ package p9
 //@ ghostvar $ret.Dirents Dirents
 //@ ghostvar $lasterr error
 //@ ghostvar $closeerr error
+//@ ghostvar $xerr error
 //@ ghostvar $curTag tag
 
 // ---- transport as seen by the server loop (bodies: see the codec section) ----------
@@ -1235,7 +1261,7 @@ package p9
 //@   ghost set $ret.tag:tag = result0
 //@   allocbound[C02] int(msize)
 //@   at (*sync.Pool).Get assume typeis(ret0, *[]byte) && unbox(ret0, *[]byte) != nil
-//@   at io.LimitReader requires[C02,C01] @drains-exactly-the-declared-body arg1 == int64(size) - 7
+//@   at io.LimitReader requires[C01,C02,C10] @drains-exactly-the-declared-body arg1 == int64(size) - 7
 //@   at io.LimitReader requires[C02] @drains-only-accepted-sizes 7 <= size && size <= msize && size <= maximumLength
 //@   at lookup requires[C02] @looks-up-only-accepted-sizes 7 <= size && size <= msize && size <= maximumLength
 //@   at lookup requires[C01,C02] @header-fields-little-endian size == uint32(hdr[0]) | uint32(hdr[1]) << 8 | uint32(hdr[2]) << 16 | uint32(hdr[3]) << 24 && arg1 == msgType(hdr[4]) && arg0 == tag(uint16(hdr[5]) | uint16(hdr[6]) << 8)
@@ -1248,7 +1274,7 @@ package p9
 //@   at message.decode requires[C02,C18] @decode-sees-only-this-frame len(dataBuf.data) <= int(remaining)
 //@   at message.decode requires[C02,C18] @decodes-only-a-completely-read-body ncalls("(Buffers).ReadFrom") == 1 || remaining == 0
 //@   ensures[C02,C06] @message-iff-no-error (result2 == nil) == (result1 != nil)
-//@   local_ensures[C02,C17] @skipped-frame-is-drained-to-its-declared-end ncalls("lookup") == 1 && result2 != nil && !typeis(result2, ConnError) ==> ghost("$consumed", int) == old(ghost("$consumed", int)) + int(size) || ghost("$eof", bool)
+//@   local_ensures[C02,C10,C17] @skipped-frame-is-drained-to-its-declared-end ncalls("lookup") == 1 && result2 != nil && !typeis(result2, ConnError) ==> ghost("$consumed", int) == old(ghost("$consumed", int)) + int(size) || ghost("$eof", bool)
 //@   local_ensures[C02,C17] @accepted-frame-consumes-exactly-its-declared-size result2 == nil ==> ghost("$consumed", int) == old(ghost("$consumed", int)) + int(size)
 //@   ensures[C02] @tiny-or-oversized-frame-ends-connection ncalls("lookup") == 0 ==> typeis(result2, ConnError) && 0 <= ghost("$consumed", int) - old(ghost("$consumed", int)) && ghost("$consumed", int) - old(ghost("$consumed", int)) <= 7 && ncalls("io.LimitReader") == 0 && ncalls("(Buffers).ReadFrom") == 0
 //@   ensures[C02] @never-drains-twice ncalls("io.LimitReader") <= 1 && ncalls("(Buffers).ReadFrom") <= 1 && ncalls("io.LimitReader") + ncalls("(Buffers).ReadFrom") <= 1
@@ -1284,7 +1310,7 @@ package p9
 //@   ensures[C18] @request-object-recycled-at-most-once ncalls("(*registry).put") <= 1
 //@   at (*registry).put requires[C18] @recycled-only-after-the-reply-was-sent ncalls("send") == 1 && ncalls("(*connState).ClearTag") == 1
 //@   requires[C06] cs.server != nil
-//@   at send requires[C06] @frames-are-contiguous held(cs.sendMu) == -1
+//@   at send requires[C01,C06] @frames-are-contiguous held(cs.sendMu) == -1
 //@   at send requires[C06] @reply-carries-request-tag arg2 == ghost("$ret.tag", tag)
 //@   at send requires[C14] @tag-cleared-before-reply ncalls("(*connState).StartTag") == ncalls("(*connState).ClearTag")
 //@   at (*connState).handle requires[C06] @not-holding-receive-token held(cs.recvMu) == 0
@@ -1356,9 +1382,9 @@ package p9
 //@   at closure:(*tversion).handle$1 requires[C13] @pool-buffers-have-negotiated-size *msize == cs.messageSize
 //@   requires[C12] forall(n, uint32, googleVersion(n) != "9P2000.L" && googleVersion(n) != "9P2000.u" && googleVersion(n) != "9P2000")
 //@   ensures[C12,C06] @always-rversion typeis(result, *rversion)
-//@   ensures[C12] @zero-msize-unknown old(t.MSize) == 0 ==> unbox(result, *rversion).Version == "unknown" && unbox(result, *rversion).MSize == 0 && cs.messageSize == old(cs.messageSize) && cs.version == old(cs.version)
-//@   ensures[C12] @unparsable-unknown old(t.MSize) != 0 && !ghost("$pv.ok", bool) ==> unbox(result, *rversion).Version == "unknown" && unbox(result, *rversion).MSize == 0 && cs.messageSize == old(cs.messageSize) && cs.version == old(cs.version)
-//@   ensures[C12] @other-dialect-unknown old(t.MSize) != 0 && ghost("$pv.ok", bool) && ghost("$pv.base", baseVersion) != version9P2000L ==> unbox(result, *rversion).Version == "unknown" && unbox(result, *rversion).MSize == 0 && cs.messageSize == old(cs.messageSize) && cs.version == old(cs.version)
+//@   ensures[C02,C12] @zero-msize-unknown old(t.MSize) == 0 ==> unbox(result, *rversion).Version == "unknown" && unbox(result, *rversion).MSize == 0 && cs.messageSize == old(cs.messageSize) && cs.version == old(cs.version)
+//@   ensures[C02,C12] @unparsable-unknown old(t.MSize) != 0 && !ghost("$pv.ok", bool) ==> unbox(result, *rversion).Version == "unknown" && unbox(result, *rversion).MSize == 0 && cs.messageSize == old(cs.messageSize) && cs.version == old(cs.version)
+//@   ensures[C02,C12] @other-dialect-unknown old(t.MSize) != 0 && ghost("$pv.ok", bool) && ghost("$pv.base", baseVersion) != version9P2000L ==> unbox(result, *rversion).Version == "unknown" && unbox(result, *rversion).MSize == 0 && cs.messageSize == old(cs.messageSize) && cs.version == old(cs.version)
 //@   ensures[C12,C13] @msize-is-min-of-requested-and-4MiB old(t.MSize) != 0 && ghost("$pv.ok", bool) && ghost("$pv.base", baseVersion) == version9P2000L ==> unbox(result, *rversion).MSize == min(old(t.MSize), maximumLength) && cs.messageSize == min(old(t.MSize), maximumLength)
 //@   ensures[C12] @version-is-min-of-requested-and-7 old(t.MSize) != 0 && ghost("$pv.ok", bool) && ghost("$pv.base", baseVersion) == version9P2000L ==> cs.version == min(ghost("$pv.num", uint32), 7) && unbox(result, *rversion).Version == ite(cs.version == 0, "9P2000.L", googleVersion(cs.version))
 //@   at parseVersion requires[C12] @parses-the-requested-string arg0 == old(t.Version)
@@ -1429,12 +1455,21 @@ package p9
 //@   ensures[C01,C13] len(b.data) == old(len(b.data)) + 8
 //@   bridge_ensures[C01] wr(b) == snoc64(old(wr(b)), v) && sameWrExcept(b)
 //@ func (*buffer).WriteString
-// (array level: the loop-preservation obligations of the byte-by-byte copy are not decided by any of the installed solvers in bit-vector arithmetic; the contract is assumed, see DESIGN.md)
-//@   abstract
+// Proved against the body: the length prefix is len(s), then byte i of s is
+// written for i = 0 .. len(s)-1 in this order (one Write8 each: the buffer grows
+// by exactly 2 + len(s)). That the bytes
+// written are the bytes of s, in order (sequence level) is the bridge contract
+// (assumed): the byte-array form of the loop's content invariant is not decided
+// by any of the installed solvers in bit-vector arithmetic.
 //@   use wrFrame
 //@   requires[C01] @length-fits-16-bits len(s) <= 65535
+//@   at (*buffer).Write16 requires[C01] @length-prefix arg0 == uint16(len(s))
+//@   at (*buffer).Write8 requires[C01] @byte-i-of-the-string arg0 == uint8(s[i]) && 0 <= i && i < len(s)
+//@   loop 0 invariant[C01,C13] 0 <= i && i <= len(s) && len(b.data) == old(len(b.data)) + 2 + i && ncalls("(*buffer).Write16") == 1
 //@   ensures[C01,C13] len(b.data) == old(len(b.data)) + 2 + len(s)
+//@   ensures[C01] @one-length-prefix ncalls("(*buffer).Write16") == 1
 //@   bridge_ensures[C01] wr(b) == snocstr(old(wr(b)), s) && sameWrExcept(b)
+//@   nopanic
 
 //@ func (*buffer).Read8
 //@   ensures[C01,C02] @reads-little-endian old(len(b.data)) >= 1 ==> result == uint8(old(b.data[0])) << 0 && arr(b.data) == old(arr(b.data)) && off(b.data) == old(off(b.data)) + 1 && len(b.data) == old(len(b.data)) - 1 && b.overflow == old(b.overflow)
@@ -2118,7 +2153,7 @@ package p9
 //@   ensures[C12] @adopts-the-reply-version result1 == nil ==> result0 != nil && result0.version == ghost("$pv.num", uint32)
 //@   ensures[C12] @only-9P2000L-replies-are-accepted result1 == nil ==> ghost("$pv.ok", bool) && ghost("$pv.base", baseVersion) == version9P2000L
 //@   ensures[C12,C13] @adopts-the-reply-msize result1 == nil ==> result0.messageSize == rversion.MSize
-//@   ensures[C11,C12,C13] @payload-fits-the-adopted-msize result1 == nil ==> result0.payloadSize >= 1 && result0.payloadSize <= result0.messageSize - msgDotLRegistry.largestFixedSize
+//@   ensures[C03,C11,C12,C13] @payload-fits-the-adopted-msize result1 == nil ==> result0.payloadSize >= 1 && result0.payloadSize <= result0.messageSize - msgDotLRegistry.largestFixedSize
 //@   ensures[C12] @failure-yields-no-client result1 != nil ==> result0 == nil
 //@   loop 0 invariant[C12,C13] c != nil && c.messageSize > msgDotLRegistry.largestFixedSize && c.version == highestSupportedVersion
 //@   loop 0 invariant[C12,C13] msgDotLRegistry.largestFixedSize >= 23 && msgDotLRegistry.largestFixedSize < 4096
